@@ -157,6 +157,8 @@ func HelperMain() {
 		writePid(args[1])
 		c := make(chan os.Signal, 4)
 		signal.Notify(c, syscall.SIGQUIT)
+		// nothing short of SIGKILL ends this process: the polite signals are ignored as well
+		signal.Ignore(syscall.SIGTERM, syscall.SIGINT, syscall.SIGHUP)
 		writeAtomic(args[1]+".ready", []byte(fmt.Sprint(vlib.MonoNow())))
 		first := true
 		for range c {
